@@ -225,6 +225,7 @@ pub type QuitRequest = Request;
 pub type QuitResponse = Response;
 
 pub type StatsRequest = Request;
+pub type NotSupportedRequest = Request;
 #[derive(Debug)]
 pub struct StatsResponse {
     pub(crate) header: ResponseHeader,
